@@ -4,12 +4,15 @@ import (
 	"bytes"
 	"github.com/XiXi-2024/xixi-kv/datafile"
 	"github.com/google/btree"
+	"sync"
 )
 
 // B 树索引实现
 // https://github.com/google/btree
 type btreeIndex struct {
 	tree *btree.BTree
+	// Clone 会修改原树的写时复制上下文, 并发创建迭代器时需互斥
+	cloneMu sync.Mutex
 }
 
 type item struct {
@@ -80,6 +83,8 @@ func (bt *btreeIndex) iterator(reverse bool) iterator {
 	if bt.tree == nil {
 		return nil
 	}
+	bt.cloneMu.Lock()
+	defer bt.cloneMu.Unlock()
 	return newBTreeIterator(bt.tree, reverse)
 }
 
